@@ -14,7 +14,9 @@ RULE = ("(i) exhaustive value lattice: bounds = list of k in {0,1,2,3} sub-lists
         "precision list of length 0..2 over {0,1e-9,0.5,1,1e6}; every spec with k=2 (57*57*31) and a reduced set for k!=2, "
         "each as lists and (when rectangular) as ndarrays; thorough adds the 3-parameter sub-lattice {-1,0,1,1e6}; "
         "(ii) Hypothesis: 1-6 parameters, bounds of any sign and scale 1e-6..1e6, positive precisions, ranges that are / are "
-        "not multiples of the precision, range/precision <= 1e5, plus injected defects. Oracle: independent ordered "
+        "not multiples of the precision, range/precision <= 1e5, plus injected defects; one case in eight is an all-integer "
+        "spec given as a signed / unsigned integer array (also at the ends of the type's range) or as plain lists of Python "
+        "ints and floats next to 2^53. Oracle: independent ordered "
         "validator (class + payload) and exact-rational grid end-point rule. Non-trivial = >= 2 simultaneous defects, or an "
         "accepted spec whose range is not a multiple of the precision.")
 ASSUMPTIONS = ["negative precisions, NaN and infinite bounds are not generated (the statement does not classify them)",
@@ -85,6 +87,12 @@ def check_spec(ctx: Ctx, case):
     exp = expected(bounds, prec)
     nd = n_defects(bounds, prec)
     nonmult = False
+    if exp is None and case.get("huge"):
+        # well-formed, but neighbouring integers beyond 2^53 have no float64 grid: only the validation of malformed
+        # specifications is judged at this magnitude
+        ctx.exclude("well-formed spec beyond 2^53 (no float64 grid to judge)")
+        ctx.count(sub, case, False, ["accepted-not-built"])
+        return
     if exp is None:
         pts = 1.0
         for l, h, p in zip(bounds[0], bounds[1], prec):
@@ -96,9 +104,11 @@ def check_spec(ctx: Ctx, case):
             ctx.count(sub, case, False, ["accepted-not-built"])
             return
     ctx.count(sub, case, (exp is not None and nd >= 2) or (exp is None and nonmult),
-              [exp[0] if exp else "accepted", "ndarray" if as_array else "list"])
-    b_arg = np.array(bounds, dtype=float) if as_array else bounds
-    p_arg = np.array(prec, dtype=float) if as_array else prec
+              [exp[0] if exp else "accepted", f"ndarray-{case.get('array_dtype', 'float64')}" if as_array else "list"] +
+              (["beyond-2^53"] if case.get("huge") else []))
+    dt = case.get("array_dtype", "float64")
+    b_arg = np.array(bounds, dtype=dt) if as_array else bounds
+    p_arg = np.array(prec, dtype=dt) if as_array else prec
     try:
         space = ss.SearchSpace(b_arg, p_arg, verbose=False)
     except ss.SearchSpaceError as e:
@@ -195,7 +205,8 @@ def param(draw):
     if draw(st.booleans()):
         lo = float(np.round(lo, draw(st.integers(0, 6))))
     if draw(st.integers(0, 5)) == 0:   # an all-integer parameter
-        lo = float(draw(st.integers(-1000, 1000)))
+        # ... possibly of large magnitude (amounts, populations): every grid point is still an exact double
+        lo = float(draw(st.integers(-1000, 1000)) + draw(st.sampled_from([0, 0, 0, 2**30, -2**31, 10**9, 10**12, -10**15, 2**52 - 10**6])))
         p = float(draw(st.sampled_from([1, 2, 5, 10])))
         m = draw(st.integers(2, 3000))
         return lo, lo + m * p + draw(st.sampled_from([0.0, 0.0, 1.0])) * (p > 1), p
@@ -210,8 +221,55 @@ def param(draw):
     return lo, hi, p
 
 
+INT_DTYPES = {"int64": (-2**63, 2**63 - 1), "int32": (-2**31, 2**31 - 1), "int16": (-2**15, 2**15 - 1),
+              "uint8": (0, 255), "uint16": (0, 2**16 - 1), "uint32": (0, 2**32 - 1), "uint64": (0, 2**64 - 1)}
+
+
+@st.composite
+def integer_specs(draw):
+    """All-integer specifications handed over as integer arrays (signed and unsigned, including the ends of the type's
+    range) or as plain lists mixing Python ints and floats next to 2^53, with the same injected defects."""
+    huge = draw(st.integers(0, 3)) == 0
+    d = draw(st.integers(1, 3))
+    if huge:
+        # plain lists: integers next to 2^53 where float arithmetic can no longer tell neighbours apart
+        base = draw(st.sampled_from([2**53, 2**60, -2**53, 2**63]))
+        lo = [base + draw(st.integers(-2, 2)) for _ in range(d)]
+        hi = [v + draw(st.sampled_from([1, 2, 4096, 10**6])) for v in lo]
+        prec = [draw(st.sampled_from([1, 2, 1024])) for _ in range(d)]
+        dt, as_array = "float64", False
+    else:
+        dt = draw(st.sampled_from(sorted(INT_DTYPES)))
+        tlo, thi = INT_DTYPES[dt]
+        near_end = draw(st.booleans())
+        lo, hi, prec = [], [], []
+        for _ in range(d):
+            span = draw(st.integers(2, min(200, thi - tlo)))
+            a = draw(st.sampled_from([tlo, thi - span])) if near_end else draw(st.integers(max(tlo, -1000), min(thi - span, 1000)))
+            lo.append(a)
+            hi.append(a + span)
+            prec.append(draw(st.integers(1, max(1, span // 2))))
+        as_array = True
+    for kd in draw(st.lists(st.sampled_from(["equal", "inverted", "inverted", "zero", "toolarge"]), max_size=2)):
+        i = draw(st.integers(0, d - 1))
+        if kd == "equal":
+            hi[i] = lo[i]
+        elif kd == "inverted":
+            lo[i], hi[i] = hi[i], lo[i]
+        elif kd == "zero":
+            prec[i] = 0
+        elif kd == "toolarge" and hi[i] > lo[i] and (huge or (hi[i] - lo[i]) * 2 <= INT_DTYPES[dt][1]):
+            prec[i] = (hi[i] - lo[i]) * 2
+    if huge and draw(st.booleans()):
+        j = draw(st.integers(0, d - 1))
+        hi[j] = float(hi[j])     # one end as a float: comparisons with the integer end must still be exact
+    return {"sub": "random", "bounds": [lo, hi], "precision": prec, "as_array": as_array, "array_dtype": dt, "huge": huge}
+
+
 @st.composite
 def random_specs(draw):
+    if draw(st.integers(0, 7)) == 0:
+        return draw(integer_specs())
     d = draw(st.integers(1, 6))
     ps = [draw(param()) for _ in range(d)]
     if draw(st.integers(0, 9)) == 0:
